@@ -164,7 +164,8 @@ class GenericGen:
                     # two concrete parameters, in one attribute or in one attribute each
                     other = r.choice([p for p in params if p != concrete])
                     it.concrete[other] = r.choice(["i32", "String", "Vec<bool>"])
-                    it.concrete_split = r.random() < 0.6
+                    # in one `concrete(..)`, in one attribute each, or as two `concrete(..)` keys of one attribute
+                    it.concrete_split = r.choice([False, True, True, "same-list"])
         # generics text
         parts = []
         if lifetime:
